@@ -43,9 +43,9 @@ def nontrivial(trace):
     return False
 
 
-def run_one(ctx, W, out, chooser, terms, tag, slow_pm=False, sleepy=False):
+def run_one(ctx, W, out, chooser, terms, tag, slow_pm=False, sleepy=False, with_cdb=False):
     """sleepy: Controller.sleep()/wake_up() are among the events; the trace is then a term for Sched.Sleep.check_scase"""
-    trace, errors, complete, drv = SC.explore(W, out, chooser, slow_pm=slow_pm, sleepy=sleepy)
+    trace, errors, complete, drv = SC.explore(W, out, chooser, slow_pm=slow_pm, sleepy=sleepy, with_cdb=with_cdb)
     evs = [t[0] for t in trace]
     ctx.case([W, sorted(out.items()), evs], nontrivial(trace))
     ctx.count('%s_schedules' % tag)
@@ -120,6 +120,17 @@ def run(ctx):
     terms = []
     W, out, sched = F1_witness()
     run_one(ctx, W, out, scripted(sched), terms, 'corpus')
+    # the same with memoization switched on (a central database is configured), and a shut-down producer of a
+    # non-aggregating consumer / a failed producer of a later-stage consumer under a configured database
+    run_one(ctx, W, out, scripted(sched), terms, 'corpus', with_cdb=True)
+    Wc = [SC.comp(sd=['KnownIssue']), SC.comp(mx=0), SC.comp(stage=1, preds=[0]), SC.comp(stage=1, preds=[1])]
+    outc = {0: ['KnownIssue'], 1: ['UnknownIssue'], 2: ['Success'], 3: ['Success']}
+    run_one(ctx, Wc, outc, scripted([('Start',), ('Exit', 0), ('PM', 0), ('Fin', 0), ('Tick',), ('Exit', 1), ('PM', 1),
+                                     ('Fin', 1), ('Tick',), ('Tick',)]), terms, 'corpus', with_cdb=True)
+    # a successful exit of a component that lists Success in shutdownOn still gives finished
+    Ws = [SC.comp(sd=['Success', 'KnownIssue']), SC.comp(preds=[0])]
+    run_one(ctx, Ws, {0: ['Success'], 1: ['Success']}, scripted([('Start',), ('Exit', 0), ('PM', 0), ('Fin', 0), ('Tick',)]),
+            terms, 'corpus')
     # F2b (fixed): Y's post-mortem is inside its 25 s stability wait while the failure of X shuts Y down
     W2 = [SC.comp(), SC.comp()]
     out2 = {0: ['UnknownIssue'], 1: ['KnownIssue']}
@@ -174,7 +185,8 @@ def run(ctx):
                 if ticks and others:
                     return r2.choice(ticks) if r2.random() < bias else r2.choice(others)
                 return r2.randrange(len(en))
-            run_one(ctx, W, out, ch, terms, 'random', slow_pm=(j == 1))
+            # half of the second schedules run with memoization switched on (a central database that never matches)
+            run_one(ctx, W, out, ch, terms, 'random', slow_pm=(j == 1), with_cdb=(j == 1 and i % 2 == 0))
     # ---- the controller put to sleep and woken up (Controller.sleep / wake_up) at arbitrary points
     sterms = []
     Ws = [SC.comp(), SC.comp(preds=[0]), SC.comp(preds=[1], rep=True)]
